@@ -386,6 +386,16 @@ def _writer_rules(W, C, info):
     if len(fields) > len(SPEC):
         C.add("R-C11-a", VIOLATED, where, "writer field count", "writer emits %d write events, the INDX0001 specification has %d fields: %s - bytes that the documented layout does not have are written"
               % (len(fields), len(SPEC), [f.kind for f in fields]), {"example": "any index: the file is longer than the documented layout"})
+        # writes that FOLLOW the final `f.tell() != 16 + size` self-check are bytes the size word does not count: the
+        # loader maps exactly 16 + size bytes, so a file cut anywhere inside them passes as complete
+        checks = [ev for ev in W.events if ev.kind == "raise" and not ev.stack and any(
+            c.op == "cmp" and c.args[0] == "!=" and pol and any(is_call(a, ".tell") and a.args[0].args[0] == W.f for a in c.args[1:]) for c, pol in ev.guards)]
+        if checks:
+            after = [f for f in fields if f.ev.seq > max(e.seq for e in checks)]
+            if after:
+                C.add("R-C11-b", VIOLATED, "%s@%d" % (where, after[0].ev.line), "nothing is written after the final length self-check",
+                      "%d write(s) follow the `f.tell() != 16 + size` check: those bytes are not counted by the size word, so a copy of the file cut inside them still holds 16 + size bytes and the loader accepts it as complete"
+                      % len(after), {"example": "save any index whose payload is not a multiple of the padding; truncate the file by one byte; load returns every entry instead of raising"})
         return
     if len(fields) != len(SPEC):
         # fewer write events may still produce the documented bytes (two fields written by one call):
@@ -961,7 +971,13 @@ def _reader_rules(R, C, info):
                 C.ok(False, "R-C10-d", where, "first returned value is the populated entries dict", "", "returns %s" % tm.show(ent)[:80])
             C.ok(com == val(u_common), "R-C10-d", where, "second returned value is the common field, a Python int from struct.unpack_from", "", "returns %s" % tm.show(com)[:120])
             kc = K.kind(com, kctx)
-            C.ok(kc == K.PYINT, "R-C10-d", where, "common value is a Python int", "", "kind %s" % kc, undecided=True)
+            if kc in (K.NPFIXED, K.ARRAY):
+                C.add("R-C10-d", VIOLATED, where, "common value is a Python int",
+                      "the common value is returned as a NumPy %s (%s): it hashes and compares like the int, so the round-trip tests pass, but an index rebuilt from it carries a fixed-width common value - shift_common() then stores a key "
+                      "holding a NumPy scalar (validate() rejects it) and `common + 1` wraps at the word size" % ("scalar" if kc == K.NPFIXED else "array", tm.show(com)[:60]),
+                      {"example": "save an index with 256 categories and common value 255, load it, build ccube([iindex(entries, common, shape)]): shape is (0,) instead of (256,)"})
+            else:
+                C.ok(kc == K.PYINT, "R-C10-d", where, "common value is a Python int", "", "kind %s" % kc, undecided=True)
             C.ok(dt == a_len.dtype, "R-C10-d", where, "third returned value is the row-id dtype of the file", "", "returns %s" % tm.show(dt)[:80])
         else:
             C.add("R-C10-d", UNDECIDED, where, "return shape", "load returns %s" % tm.show(v)[:120])
